@@ -10,6 +10,14 @@ if TYPE_CHECKING:
 Mark = NewType("Mark", int)
 
 
+def trace(text: str) -> None:
+    """Print a line of the verbose trace; a stream that cannot encode the source text gets it escaped."""
+    try:
+        print(text)
+    except UnicodeEncodeError:
+        print(text.encode("ascii", "backslashreplace").decode("ascii"))
+
+
 class Tokenizer:
     """Caching wrapper for the tokenize module"""
 
@@ -298,8 +306,8 @@ class Tokenizer:
         else:
             fill = "-" * self._index + "*"
         if self._index == 0:
-            print(f"{fill} (Bof)")
+            trace(f"{fill} (Bof)")
         else:
             tok = self._tokens[self._index - 1]
             short = "%-25.25s" % f"{tok.start[0]}.{tok.start[1]}: {tok.type!r}:{tok.string!r}"
-            print(f"{fill} {short}")
+            trace(f"{fill} {short}")
